@@ -44,3 +44,62 @@ pub broadcast group group_sr_ref_key { axiom_sr_contains_ref_key, axiom_sr_maps_
 /// `String` compares the characters, vstd's key model reads map lookups as specification equality of the keys).
 pub broadcast axiom fn axiom_sr_string_ext(a: String, b: String)
     ensures #![trigger a@, b@] a@ == b@ ==> a == b;
+impl Clone for Tid {
+    #[verifier::external_body]
+    fn clone(&self) -> (r: Tid) ensures r == *self { unimplemented!() }
+}
+impl<T> Clone for Term<T> {
+    #[verifier::external_body]
+    fn clone(&self) -> (r: Term<T>) ensures r == *self { unimplemented!() }
+}
+
+// ---- Peekable<std::slice::Iter<'a, T>> (R9 on the field type of SubregisterSubstitutionBuilder, after R11 `std::slice::`) --------
+// std: `slice::Iter` "Immutable slice iterator", `Iterator::peekable` "Creates an iterator which can use the peek and peek_mut
+// methods to look at the next element of the iterator without consuming it", `Peekable::peek` "Returns a reference to the next()
+// value without advancing the iterator", `next` "Advances the iterator and returns the next value".  MODEL: the slice and the
+// index of the next element.  The bodies below are VERIFIED; the assumption is that std's types behave like this model.
+// (`peek` returns `Option<&'a T>` where std returns `Option<&&'a T>`: the builder only reads through it.)
+pub struct Iter<'a, T> { pub s: &'a Vec<T>, pub pos: usize }
+pub struct Peekable<I> { pub iter: I }
+
+impl<'a, T> Peekable<Iter<'a, T>> {
+    pub open spec fn sr_wf(&self) -> bool { self.iter.pos <= self.iter.s@.len() }
+
+    pub fn next(&mut self) -> (r: Option<&'a T>)
+        requires old(self).sr_wf(),
+        ensures
+            final(self).iter.s == old(self).iter.s, final(self).sr_wf(),
+            old(self).iter.pos < old(self).iter.s@.len() ==> r == Some(&old(self).iter.s@[old(self).iter.pos as int]) && final(self).iter.pos == old(self).iter.pos + 1,
+            old(self).iter.pos >= old(self).iter.s@.len() ==> r is None && final(self).iter.pos == old(self).iter.pos,
+    {
+        if self.iter.pos < self.iter.s.len() {
+            let x = &self.iter.s[self.iter.pos];
+            self.iter.pos = self.iter.pos + 1;
+            Some(x)
+        } else {
+            None
+        }
+    }
+
+    pub fn peek(&mut self) -> (r: Option<&'a T>)
+        requires old(self).sr_wf(),
+        ensures
+            *final(self) == *old(self),
+            old(self).iter.pos < old(self).iter.s@.len() ==> r == Some(&old(self).iter.s@[old(self).iter.pos as int]),
+            old(self).iter.pos >= old(self).iter.s@.len() ==> r is None,
+    {
+        if self.iter.pos < self.iter.s.len() { Some(&self.iter.s[self.iter.pos]) } else { None }
+    }
+}
+/// R9 target of `V.iter().peekable()`
+pub fn sr_peekable<'a, T>(v: &'a Vec<T>) -> (r: Peekable<Iter<'a, T>>)
+    ensures r.iter.s == v, r.iter.pos == 0, r.sr_wf(),
+{
+    Peekable { iter: Iter { s: v, pos: 0 } }
+}
+
+/// R9 target of `panic!()` in replace_output_subregister: a PROOF OBLIGATION (the panics are unreachable)
+pub fn sr_unreachable()
+    requires false,
+{
+}
